@@ -151,6 +151,7 @@ var seedExpectations = []seedExpect{
 	{"type-error-dropped", "C11", "errflow.nilonly", "lowerLocalConst"},
 	{"sample-offset-dropped", "C09", "sample.offsetkept", "lowerTextureSampleCompare"},
 	{"glsl-vector-select", "C05", "select.condshape", "writeSelect"},
+	{"glsl-image-atomic-coord", "C05", "image.coordbuilder", "writeImageAtomic"},
 	{"glsl-shallow-feature-scan", "C05", "walker.shallow", "scanStatementsForFeatures"},
 	{"glsl-nested-switch-continue", "C05", "continue.forwardnest", "writeSwitch"},
 	{"stale-type-tables", "C09", "phase.stalehandles", "buildGlobalExprFromAST"},
